@@ -115,6 +115,6 @@ def cases(tier, seed):
         pairs.append(("VoiceOrDataSync", FrameType.Sync.value))
     out = []
     for sname, ft in pairs:
-        out.append(Case("frame-" + sname, "h_frame", dict(slot=getattr(SlotType, sname).value, frame_type=ft), covers=["frame"], budget_s=900, opts=dict(max_paths=600, max_violations=12),
+        out.append(Case("frame-%s%s" % (sname, "-sync" if ft == FrameType.Sync.value else ""), "h_frame", dict(slot=getattr(SlotType, sname).value, frame_type=ft), covers=["frame"], budget_s=900, opts=dict(max_paths=600, max_violations=12),
                         bounds="72-octet frame: sequence, colour nibble, ids, reserved, source port and the 33 payload octets symbolic"))
     return out
